@@ -45,6 +45,7 @@ class Module:
             self.renamed = alpha.apply(self.tree, relpath)
             from . import propagate
             self.propagated = propagate.apply(self.tree, relpath)
+            ast.fix_missing_locations(self.tree)
         self.lines = source.splitlines()
         self._defs = None
         # parent links and qualnames
@@ -91,6 +92,9 @@ class Module:
             return ast.get_source_segment(self.source, node) or ast.unparse(node)
         except Exception:
             return ast.unparse(node)
+
+
+_MODULE_MEMO = {}
 
 
 class RepoIndex:
@@ -144,11 +148,36 @@ class RepoIndex:
     def module(self, relpath):
         if relpath not in self._modules:
             src = self.read(relpath)
+            # parsed + canonicalised modules are shared between the indexes of one process (calibration builds one index per overlay) when
+            # the content of the file and of every other file its inliner consulted is unchanged
+            key = (relpath, hashlib.sha256(src.encode()).hexdigest(), self.root)
+            for deps, mod in _MODULE_MEMO.get(key, []):
+                if all(self._content_hash(d) == h for d, h in deps.items()):
+                    self._modules[relpath] = mod
+                    for d in deps:
+                        self.read(d) if self.exists(d) else None
+                    return mod
             try:
-                self._modules[relpath] = Module(relpath, src, loader=self._raw_tree)
+                consulted = {}
+
+                def loader(rp, consulted=consulted):
+                    t = self._raw_tree(rp)
+                    consulted[rp] = self._content_hash(rp)
+                    return t
+                self._modules[relpath] = Module(relpath, src, loader=loader)
+                _MODULE_MEMO.setdefault(key, []).append((dict(consulted), self._modules[relpath]))
             except SyntaxError as e:
                 raise AnalysisError(f'{relpath} does not parse: {e}')
         return self._modules[relpath]
+
+    def _content_hash(self, relpath):
+        if relpath in self.overlay:
+            return hashlib.sha256(self.overlay[relpath].encode()).hexdigest()
+        p = os.path.join(self.root, relpath)
+        if not os.path.isfile(p):
+            return None
+        with open(p, 'rb') as h:
+            return hashlib.sha256(h.read()).hexdigest()
 
     def _raw_tree(self, relpath):
         """parsed + N1-N4 normalised tree of a package file (used to inline helpers imported from another module); None if absent"""
